@@ -32,8 +32,8 @@ func init() {
 			"it must equal Spec.DFA() computed in-process from the same text everywhere (-1 where undefined and for states the automaton does not have; owner exactly, ERR otherwise), via a start-anchored state bijection. non-trivial = automaton has >= 4 states and >= 2 terminals; distinct by text.",
 		assumptions: []string{"the Go toolchain found on PATH builds the scratch module offline (GOFLAGS=-mod=mod GOPROXY=off)", "Spec.DFA() is deterministic for a given text (C15)"},
 		floorQuick:  10, floorThorough: 100,
-		serial:      true,
-		run:         runC08,
+		serial: true,
+		run:    runC08,
 	})
 }
 
